@@ -5,7 +5,7 @@
 //! handler, and a scripted `RateLimiter`. `sleep(1ns)` is the quiescence barrier.
 //!
 //! stdin, one scenario per line:   <cfg> ; <op> ; <op> ; ...
-//!   cfg:  <router kp|q|sq|rr|cu> <queue d|p> <n workers> <disc none|new:L|old:L> <hash -|k:v,k:v> <rl -|bits>
+//!   cfg:  <router kp|q|sq|rr|cu> <queue d|p> <n workers> <disc none|new:L|old:L> <hash -|k:v,k:v> <rl -|bits> [dms:<secs>]
 //!   ops:  d <jid> <key> <ttl ms|-> <port 0|1>     dispatch a job
 //!         g <w> | f <w> | p <w>                   running job on worker w completes | returns Err | panics
 //!         k <w>                                   kill the newest live actor of worker w
@@ -17,6 +17,7 @@
 //!       total below 10 s so that the factory's 10 s ping timer never fires.
 //!         drain | stop | q                        DrainRequests | factory.stop() | queue depth/active/capacity
 //!         sd <disc> | sw <n> | sh                 UpdateSettings(discard_settings | worker_count | a new discard handler)
+//!         ud <kind>                               UpdateSettings of dead man's switch (detection only) / capacity controller / hooks / stats
 //!         xs <w> | xr <w>                         stop worker w's newest actor from outside with its post_stop held back | let that post_stop return
 //! a line starting with `hash ` asks for hash_with_max values:  hash <n> <k> <k> ...
 //! stdout: one Coq-syntax term per line: list (per op) of event lists (chronological inside an op).
@@ -242,6 +243,18 @@ impl WorkerCapacityController for Ctl {
     }
 }
 
+/// lifecycle hooks with the library's default (no-op) implementations
+struct Hooks;
+impl FactoryLifecycleHooks<u64, Payload> for Hooks {}
+
+/// a stats layer with the library's default (no-op) implementations
+struct Stats;
+impl FactoryStatsLayer for Stats {}
+
+fn dms_cfg(secs: u64) -> DeadMansSwitchConfiguration {
+    DeadMansSwitchConfiguration::builder().detection_timeout(Duration::from_secs(secs)).kill_worker(false).build()
+}
+
 struct TableHash(HashMap<u64, u64>);
 impl CustomHashFunction<u64> for TableHash {
     fn hash(&self, key: &u64, _n: usize) -> usize {
@@ -288,6 +301,8 @@ fn parse_disc(s: &str) -> DiscardSettings {
 struct Cfg {
     n: usize,
     disc: String,
+    /// dead man's switch at start: detection timeout in seconds (kill_worker = false: detection only)
+    dms: Option<u64>,
 }
 
 /// Quiescence barrier: with the paused clock, time only moves when every task is blocked.
@@ -314,6 +329,9 @@ where
         .discard_handler(Arc::new(Disc(sh.clone(), 0)))
         .discard_settings(parse_disc(&cfg.disc))
         .capacity_controller(Box::new(Ctl(sh.clone(), ctl_gate.clone())))
+        .lifecycle_hooks(Box::new(Hooks))
+        .stats(Arc::new(Stats))
+        .maybe_dead_mans_switch(cfg.dms.map(dms_cfg))
         .build();
     let t_start = tokio::time::Instant::now();
     let (factory, _fh) = Actor::spawn(None, fdef, args).await.expect("factory spawn");
@@ -359,7 +377,7 @@ where
                     job.accepted = Some(tx.into());
                     pending_ports.push((jid, rx));
                 }
-                if let Err(e) = factory.cast(FactoryMessage::Dispatch(job)) {
+                if let Err(e) = factory.dispatch_job(job) {
                     // factory gone: the job comes back in the error
                     ev(&sh, format!("ESendErr {}", jid));
                     sh.lock().unwrap().settled.insert(jid);
@@ -402,7 +420,7 @@ where
                 }
             }
             "r" => {
-                let _ = factory.cast(FactoryMessage::AdjustWorkerPool(num(1)));
+                let _ = factory.adjust_worker_pool(num(1));
             }
             "t" => {
                 tokio::time::advance(Duration::from_secs(num(1) as u64)).await;
@@ -427,20 +445,16 @@ where
                 }
             }
             "drain" => {
-                let _ = factory.cast(FactoryMessage::DrainRequests);
+                let _ = factory.drain_requests();
             }
             "stop" => {
                 factory.stop(None);
             }
             "sd" => {
-                let _ = factory.cast(FactoryMessage::UpdateSettings(
-                    UpdateSettingsRequest::builder().discard_settings(parse_disc(w[1])).build(),
-                ));
+                let _ = factory.update_settings(UpdateSettingsRequest::builder().discard_settings(parse_disc(w[1])).build());
             }
             "sw" => {
-                let _ = factory.cast(FactoryMessage::UpdateSettings(
-                    UpdateSettingsRequest::builder().worker_count(num(1)).build(),
-                ));
+                let _ = factory.update_settings(UpdateSettingsRequest::builder().worker_count(num(1)).build());
             }
             "xs" => {
                 // graceful stop from outside of the newest live actor of worker w; its post_stop is held back
@@ -494,6 +508,29 @@ where
                     handler_gen -= 1;
                 }
             }
+            "ud" => {
+                // UpdateSettings of the parts the model does not carry (their effect on jobs must be nil):
+                // dms:<secs> | dms:off | ctl | hooks | hooksoff | stats | statsoff
+                let req = match w[1] {
+                    "dms:off" => UpdateSettingsRequest::builder().dead_mans_switch(None).build(),
+                    x if x.starts_with("dms:") => UpdateSettingsRequest::builder()
+                        .dead_mans_switch(Some(dms_cfg(x[4..].parse().expect("dms secs"))))
+                        .build(),
+                    "ctl" => UpdateSettingsRequest::builder()
+                        .capacity_controller(Some(Box::new(Ctl(sh.clone(), ctl_gate.clone())) as Box<dyn WorkerCapacityController>))
+                        .build(),
+                    "hooks" => UpdateSettingsRequest::builder()
+                        .lifecycle_hooks(Some(Box::new(Hooks) as Box<dyn FactoryLifecycleHooks<u64, Payload>>))
+                        .build(),
+                    "hooksoff" => UpdateSettingsRequest::builder().lifecycle_hooks(None).build(),
+                    "stats" => UpdateSettingsRequest::builder()
+                        .stats(Some(Arc::new(Stats) as Arc<dyn FactoryStatsLayer>))
+                        .build(),
+                    "statsoff" => UpdateSettingsRequest::builder().stats(None).build(),
+                    other => panic!("unknown ud kind {other}"),
+                };
+                let _ = factory.update_settings(req);
+            }
             "q" => {}
             other => panic!("unknown op {other}"),
         }
@@ -502,23 +539,18 @@ where
             let held = sh.lock().unwrap().held;
             let alive = factory.get_status() == ractor::ActorStatus::Running;
             if !held && alive {
-                // issue the three calls, then let the factory answer them
-                let (t1, mut r1) = oneshot();
-                let (t2, mut r2) = oneshot();
-                let (t3, mut r3) = oneshot();
-                let _ = factory.cast(FactoryMessage::GetQueueDepth(t1.into()));
-                let _ = factory.cast(FactoryMessage::GetNumActiveWorkers(t2.into()));
-                let _ = factory.cast(FactoryMessage::GetAvailableCapacity(t3.into()));
-                barrier().await;
-                if let Ok(a) = r1.try_recv() {
+                // the three queries through the FactoryRef convenience API (each waits for its answer; a factory
+                // that stops in between refuses the next call)
+                if let Ok(ractor::rpc::CallResult::Success(a)) = factory.queue_depth(None).await {
                     ev(&sh, format!("EQDepth {}", a));
                 }
-                if let Ok(b) = r2.try_recv() {
+                if let Ok(ractor::rpc::CallResult::Success(b)) = factory.active_workers(None).await {
                     ev(&sh, format!("EQActive {}", b));
                 }
-                if let Ok(c) = r3.try_recv() {
+                if let Ok(ractor::rpc::CallResult::Success(c)) = factory.available_capacity(None).await {
                     ev(&sh, format!("EQCap {}", c));
                 }
+                barrier().await;
             }
         }
         // a no-op message closes every op, so that the factory's `is_drained` check (made after
@@ -568,7 +600,8 @@ fn run_scenario(line: &str) -> String {
         .collect();
     let c = &parts[0];
     let ops: Vec<Vec<String>> = parts[1..].to_vec();
-    let cfg = Cfg { n: c[2].parse().expect("n"), disc: c[3].clone() };
+    let dms = c.get(6).and_then(|t| t.strip_prefix("dms:")).map(|t| t.parse::<u64>().expect("dms"));
+    let cfg = Cfg { n: c[2].parse().expect("n"), disc: c[3].clone(), dms };
     let mut table = HashMap::new();
     if c[4] != "-" {
         for kv in c[4].split(',') {
